@@ -102,6 +102,12 @@ Proof.
 Qed.
 Print Assumptions C03_visits_fresh_modelled.
 
+(* typeUnparen through the type-expression walker (SkipChilds protocol on the consumed-flag invariant); executed per file as well *)
+Theorem C03_visits_fresh_typeUnparen : forall buf h,
+  visits (buf, false) (check skt_run) h = map (fun cf => result_fresh (buf, false) (check skt_run) (fst cf) (snd cf)) h.
+Proof. exact skt_checker_visits_fresh. Qed.
+Print Assumptions C03_visits_fresh_typeUnparen.
+
 (* instances: the modelled checkers behind the linter.Checker wrapper, over any history *)
 Theorem C03_history_irrelevant_ifElseChain : forall h c f,
   let run := check (fun thr s f => iec_run thr s f) in
